@@ -86,6 +86,15 @@ SCENARIO("compose") {
   out("out", Z.coeffs()); out("Ja", Ja); out("Jb", Jb);
   Each<0, N>::compose(X, Y);
 }
+SCENARIO("compose_subsets") {
+  // only the first / only the second Jacobian requested: still block-diagonal with literal zeros
+  B X = sym_group<B>("x"), Y = sym_group<B>("y");
+  BJ Ja = poison_mat<DoF, DoF>("Ja"), Jb = poison_mat<DoF, DoF>("Jb");
+  B Z1 = X.compose(Y, Ja);
+  B Z2 = X.compose(Y, B::_, Jb);
+  out("out", Z1.coeffs()); out("out2", Z2.coeffs()); out("Ja", Ja); out("Jb", Jb);
+  Each<0, N>::compose(X, Y);
+}
 SCENARIO("inverse") {
   B X = sym_group<B>("x");
   BJ J = poison_mat<DoF, DoF>("J");
